@@ -33,8 +33,8 @@ For each change X in {{a, b}} deliver in /tmp/seed_out/{pid}/X/ :
 
 ```
 cd /tmp/seed_{pid}
-cmake -G Ninja -S . -B _build -DDRACO_TESTS=ON -DCMAKE_BUILD_TYPE=RelWithDebInfo -DCMAKE_CXX_FLAGS=-Wno-error >/dev/null
-ninja -C _build -j5 draco_tests draco_encoder draco_decoder draco      # use -j5, the machine is shared
+cmake -G Ninja -S . -B _build -DDRACO_TESTS=ON -DDRACO_GOOGLETEST_PATH=/repo/third_party/googletest -DCMAKE_BUILD_TYPE=RelWithDebInfo -DCMAKE_CXX_FLAGS=-Wno-error >/dev/null
+ninja -C _build -j5 draco_tests draco_factory_tests draco_encoder draco_decoder libdraco.a      # use -j5, the machine is shared
 cd _build && ./draco_tests 2>&1 | tail -15
 ```
 On the UNCHANGED tree exactly two tests fail (`ObjDecoderTest.TestObjDecodingAll` and `ObjEncoderTest.TestObjEncodingAll`, because of files missing from testdata); all others pass. "Passing the existing tests" means: with your change the result is the same - those two fail, everything else passes. `./draco_factory_tests` must also still pass. Build draco_features.h lives in _build/draco/draco_features.h (hence -I$1/_build).
